@@ -14,6 +14,8 @@ mod projection;
 mod round;
 mod storage;
 mod value_stack;
+#[cfg(googlefonts_fontations_verif)]
+pub mod verif_hooks;
 mod zone;
 
 use super::super::Target;
